@@ -459,6 +459,8 @@ def rule_descriptor_ownership(ctx):
 
 
 def run(ctx):
+    from . import serial as _serial
+    _serial.rule_R05_2(ctx)         # R05.2: a served snapshot carries every member under its own name
     from . import c01
     c01.rule_dispatch(ctx)            # R01.1: a switch over r->status that ignores enumerators (paused / single-stepped by a client) without reporting
     rule_descriptor_ownership(ctx)
